@@ -237,6 +237,21 @@ def gen(rng, nrng, tier):
                 yield ("xcorr", q)
                 if ml is not None and ml <= 40:
                     yield ("corr", dict(q))
+    # mixed pairs: one sequence real (or integer dtype), the other complex, unequal lengths both ways
+    for i in range(24 if tier == "quick" else 300):
+        nx = int(nrng.integers(1, maxN + 1))
+        ny = int(nrng.integers(1, maxN + 1))
+        if nx == ny:
+            ny = nx + 1 + i % 3
+        xr = _data(nrng, nx, False, i)
+        yc = _data(nrng, ny, True, i + 1)
+        if i % 3 == 2:
+            xr = np.round(xr * 4).astype(int)
+            yc = _data(nrng, ny, False, i + 1)           # integer dtype against float
+        a, b = (xr, yc) if i % 2 else (yc, xr)
+        N = max(nx, ny)
+        yield ("corr", {"x": a, "y": b, "auto": False, "norm": ["biased", "unbiased", None][i % 3],
+                        "maxlags": [0, N - 1, N // 2, None][i % 4]})
     methods = ["autocorrelation", "prewindowed", "postwindowed", "covariance", "modified"]
     nm = 100 if tier == "quick" else 1500
     for i in range(nm):
